@@ -11,6 +11,7 @@ mod locs;
 mod path;
 mod probe;
 mod scopes;
+mod strfy;
 mod total;
 mod util;
 
@@ -43,6 +44,7 @@ fn main() {
         "total" => total::total(tier, seed, args.get(4).and_then(|s| s.parse().ok()).unwrap_or(0), &mut out),
         "one" => total::one(tier, args.get(3).map(|s| s.as_str()).unwrap_or(""), &mut out),
         "scale" => total::scale(tier, seed, &mut out),
+        "strfy" => strfy::run(tier, seed, &mut out),
         "scopes" => scopes::run(tier, seed, &mut out),
         "scopeval" => scopes::run_val(tier, seed, &mut out),
         "probe" => probe::run(&args[2..]),
